@@ -9,6 +9,11 @@ Four families of executions, all on the real code:
  B  bounds, checked after every event of the history: buffer(n): accepted - emitted <= n;
     map_async(parallelism=n): accepted - emitted <= n + 1 and running evaluations <= n;
     zip(maxsize=n), one awaiting producer per input: per input accepted - matched <= n;
+ S  source-driven: the producer is a real source (from_periodic, from_iterable, from_textfile, filenames) started on the
+    loop, in front of a direct chain or of buffer(n)/map_async(n), with consumers slower than the polling period: a
+    source takes its next element only after the awaitable of its previous emission has completed, so consumer calls of
+    a direct chain never overlap and a bounding node never holds more than its bound plus the one element the source is
+    held back with;
  T  threaded: pipeline bound to the shared background loop, 1-4 caller threads doing blocking emits; when emit()
     returns every consumer call on that element has already ended (event order in a lock-protected log).
 In every family: once all consumers have completed and the loop is idle/quiescent, no emit may be pending.
@@ -25,7 +30,8 @@ RULE = ('families A1/A2/B/T as in the module docstring; consumers: sync / native
         'from {0,.25,.5,1,1.5,2}; bounds n in {1,2,3,5}; non-trivial = at least one asynchronous consumer call with '
         'non-zero service time (A), the bound was reached at least once minus one (B), >=2 caller threads overlapped (T); '
         'distinct by hash(case)')
-REQUIRED = ['A1_emit_windows_checked', 'A2_calls_attributed', 'B_bound_points_checked', 'T_emits_checked']
+REQUIRED = ['A1_emit_windows_checked', 'A2_calls_attributed', 'B_bound_points_checked', 'T_emits_checked',
+            'S_source_emissions_checked']
 ASSUMPTIONS = ['bounds as documented by the mechanism: buffer(n) queue n; map_async n queued + 1 being delivered; '
                'zip(maxsize) with one awaiting producer per input',
                'threaded verdicts are on event order only; a wall-clock watchdog firing is inconclusive']
@@ -43,7 +49,8 @@ def plan(tier):
 
 
 def n_cases(tier):
-    return {'A1': 700, 'A2': 700, 'B': 900, 'T': 40} if tier == 'thorough' else {'A1': 90, 'A2': 90, 'B': 120, 'T': 6}
+    return {'A1': 700, 'A2': 700, 'B': 900, 'S': 500, 'T': 40} if tier == 'thorough' else \
+        {'A1': 90, 'A2': 90, 'B': 120, 'S': 60, 'T': 6}
 
 
 def slow_sinks(prog, rng):
@@ -105,6 +112,12 @@ def gen_case(rng, fam):
                      for _ in range(np_)]
             awaiting = rng.random() < 0.7
         return {'family': fam, 'prog': prog, 'producers': prods, 'awaiting': awaiting, 'bound': [kind, n]}
+    if fam == 'S':
+        mid = rng.choice(['none', 'map', 'buffer', 'buffer', 'map_async', 'rate_limit'])
+        return {'family': 'S', 'src': rng.choice(['periodic', 'periodic', 'iterable', 'textfile', 'filenames']),
+                'poll': rng.choice([0.1, 0.25, 0.5, 1.0]), 'items': rng.randrange(4, 11), 'mid': mid,
+                'n': rng.choice([1, 1, 2, 3]), 'sink_kind': rng.choice(['coro', 'future', 'tornado']),
+                'svc': [rng.choice([0, 0.25, 0.5, 1.0, 1.5, 2.0, 3.0]) for _ in range(rng.choice([1, 2, 3]))]}
     # threaded
     nthreads = rng.choice([1, 2, 3, 4])
     chain = rng.choice([['map'], ['map', 'rate_limit'], ['rate_limit'], ['map', 'filter'], ['accumulate']])
@@ -467,7 +480,139 @@ def check_threaded(case, counters, sets):
     return d, viols
 
 
+def check_sources(case, counters, sets):
+    import asyncio
+    import itertools
+    import os
+    import shutil
+    import tempfile
+    from tornado import gen
+    from streamz import Stream
+    from .. import recorder as R
+    from ..vloop import virtual_env
+    viols, seen = [], set()
+
+    def add(key, what):
+        if key not in seen:
+            seen.add(key)
+            viols.append({'key': key, 'what': what, 'case': case})
+    n_items, poll, svc, kind = case['items'], case['poll'], case['svc'], case['sink_kind']
+    tmp = tempfile.mkdtemp(prefix='vfc03_') if case['src'] in ('textfile', 'filenames') else None
+    try:
+        with virtual_env() as env:
+            loop = env.loop
+            with R.recording(env.now) as log:
+                if case['src'] == 'periodic':
+                    cnt = itertools.count()
+                    src = Stream.from_periodic(lambda: next(cnt), poll_interval=poll, asynchronous=True)
+                elif case['src'] == 'iterable':
+                    src = Stream.from_iterable(list(range(n_items)), asynchronous=True)
+                elif case['src'] == 'textfile':
+                    fn = os.path.join(tmp, 'f.txt')
+                    with open(fn, 'w') as f:
+                        f.write(''.join('%d\n' % i for i in range(n_items)))
+                    src = Stream.from_textfile(fn, poll_interval=poll, asynchronous=True)
+                else:
+                    for i in range(n_items):
+                        open(os.path.join(tmp, 'f%02d' % i), 'w').close()
+                    src = Stream.filenames(tmp, poll_interval=poll, asynchronous=True)
+                log.name(src, 'src')
+                node = src
+                if case['mid'] == 'map':
+                    node = node.map(lambda x: x)
+                elif case['mid'] == 'buffer':
+                    from streamz.core import buffer as _buffer      # from_textfile has a data attribute named buffer
+                    node = _buffer(node, case['n'])
+                elif case['mid'] == 'map_async':
+                    async def ident(x):
+                        await asyncio.sleep(svc[0])
+                        return x
+                    node = node.map_async(ident, parallelism=case['n'])
+                elif case['mid'] == 'rate_limit':
+                    node = node.rate_limit(poll / 2)
+                if node is not src:
+                    log.name(node, 'mid')
+                calls = {'n': 0}
+
+                async def body(x, k):
+                    d = svc[k % len(svc)]
+                    if d:
+                        await asyncio.sleep(d)
+                    log.add('END', 'sk', x)
+
+                def sink(x):
+                    k = calls['n']
+                    calls['n'] += 1
+                    log.add('START', 'sk', x)
+                    if kind == 'coro':
+                        return body(x, k)
+                    if kind == 'future':
+                        return asyncio.ensure_future(body(x, k))
+                    return gen.convert_yielded(body(x, k))
+                node.sink(sink)
+                src.start()
+                horizon = (n_items + 2) * (poll + max(svc) + 0.1) * 2
+                if case['src'] == 'periodic':
+                    loop.call_later(n_items * poll, src.stop)
+                reason = loop.drive(until_vt=horizon, max_iters=300000)
+                src.stop()
+                loop.drive(until_vt=horizon + 2 * (poll + max(svc)) + 1, max_iters=100000)
+                errors = list(env.errors)
+    finally:
+        if tmp:
+            shutil.rmtree(tmp, ignore_errors=True)
+
+    class Res:
+        pass
+    r = Res()
+    r.stop = reason
+    if reason == 'iter-cap':
+        return r, None
+    for name, msg, exc in errors:
+        add('C03:loop-exception:%s' % (type(exc).__name__ if exc is not None else 'log'), '%s %s %r' % (name, msg[:200], exc))
+    bounded = case['mid'] in ('buffer', 'map_async')
+    open_n = max_open = 0
+    ins = outs = hi = 0
+    n_src = 0
+    for e in log.ev:
+        k = e[2]
+        if k == 'OUT' and e[3] == 'src':
+            n_src += 1
+            counters['S_source_emissions_checked'] = counters.get('S_source_emissions_checked', 0) + 1
+            if not bounded and open_n > 0:
+                add('C03:source-emitted-before-previous-emission-completed@%s' % type(src).__name__,
+                    '%s produced %r at t=%s while %d consumer call(s) on its previous element(s) had not ended (direct chain '
+                    '%s, consumer service times %s, poll interval %s)' % (type(src).__name__, e[4], e[1], open_n, case['mid'], svc, poll))
+        elif k == 'START':
+            open_n += 1
+            max_open = max(max_open, open_n)
+        elif k == 'END':
+            open_n -= 1
+        elif bounded and e[3] == 'mid' and k in ('IN', 'OUT'):
+            if k == 'IN':
+                ins += 1
+            else:
+                outs += 1
+            counters['S_bound_points_checked'] = counters.get('S_bound_points_checked', 0) + 1
+            hi = max(hi, ins - outs)
+            # n queued + the one being handed on + the one the source is held back with
+            if ins - outs > case['n'] + 2:
+                add('C03:source-overruns-bound@%s+%s' % (type(src).__name__, case['mid']),
+                    '%s(%d) fed by %s: %d elements taken in and not yet handed on at t=%s (bound %d + one being delivered + one '
+                    'held-back emission)' % (case['mid'], case['n'], type(src).__name__, ins - outs, e[1], case['n']))
+    ends = sum(1 for e in log.ev if e[2] == 'END')
+    if open_n == 0 and case['src'] != 'periodic' and ends < n_items and reason != 'iter-cap':
+        add('C03:source-stalled@%s' % type(src).__name__, '%s delivered %d of its %d items although every consumer call ended'
+            % (type(src).__name__, ends, n_items))
+    sets.setdefault('source_kinds', set()).add('%s+%s' % (case['src'], case['mid']))
+    counters['events_observed'] = counters.get('events_observed', 0) + len(log.ev)
+    r.interesting = n_src >= 3 and max(svc) > poll
+    return r, viols
+
+
 def check_case(case, counters, sets):
+    if case['family'] == 'S':
+        return check_sources(case, counters, sets)
     if case['family'] == 'T':
         return check_threaded(case, counters, sets)
     return check_async(case, counters, sets)
@@ -478,7 +623,7 @@ def run_shard(seed, tier, shard, nshards):
     out = {'evaluations': 0, 'keys': [], 'violations': [], 'samples': [], 'counters': {},
            'sets': {}, 'inconclusive': []}
     plan_n = n_cases(tier)
-    for fam in ('A1', 'A2', 'B', 'T'):
+    for fam in ('A1', 'A2', 'B', 'S', 'T'):
         for k in range(plan_n[fam]):
             case = gen_case(rng, fam)
             r, viols = check_case(case, out['counters'], out['sets'])
